@@ -1,5 +1,5 @@
 import AcqVerif.Runtime.Clean
-import AcqVerif.Runtime.Data.WakeReach
+import AcqVerif.Runtime.Data.StopReach
 /-!
 # C07 — abort and stop always return and leave a reusable runtime
 
@@ -75,6 +75,43 @@ theorem refusal_wakes_a_sleeping_source (rt : RT) (h : MReach rt) (s : Nat) (hf 
     ((getS rt s).src.pc = .wmapAsleep → (getS rt s).sinkCh.c.accepting = false →
       (getS rt s).snk.pc = .errAccNotify ∨ rt.client.pc = .accNotify s 1) :=
   ⟨(DWake.micro rt h s hf he hm).held, (DWake.micro rt h s hf he hm).refused_wakes⟩
+
+/-- (6) **`acquire_stop` never waits for a sleeper that only a dead sink could wake**: while the client is inside
+`acquire_stop` (which joins the source first) and the source of a configured stream is asleep on a full ring, either a
+refusal's `notify_all` is still on its way (5), or the channel accepts writes and the stream's sink thread is alive and has
+not passed the point of its error path where it refuses writes — so the reader that frees the ring is still running.
+(The remaining way to stall — a client that keeps the *monitor* reader's region mapped — is the known finding of C07.) -/
+theorem stop_never_waits_for_an_orphaned_sleeper (rt : RT) (h : MReach rt) (s : Nat) (hf : (getS rt s).cam.failAt = none)
+    (he : (getS rt s).cam.emptyEvery = 0) (hm : rt.client.misused = false) (hF : 0 < (getS rt s).F)
+    (hv : (getS rt s).valid = true) (hc : (stopBelow rt.client.pc).isSome = true) (hs : (getS rt s).src.pc = .wmapAsleep) :
+    ((getS rt s).snk.pc = .errAccNotify ∨ rt.client.pc = .accNotify s 1) ∨
+    ((getS rt s).sinkCh.c.accepting = true ∧ (getS rt s).snk.pc ≠ .exit ∧ (getS rt s).snk.pc ≠ .done ∧
+      snkErrLate (getS rt s).snk.pc = false) := by
+  have w := DWake.micro rt h s hf he hm
+  have d := DStop.micro rt h s hf he hm hF
+  have hnd : (getS rt s).src.pc ≠ .done := by rw [hs]; simp
+  cases hacc : (getS rt s).sinkCh.c.accepting with
+  | false => exact .inl (w.refused_wakes hs hacc)
+  | true =>
+    refine .inr ⟨rfl, ?_⟩
+    have hacc' : (AcqVerif.Channel.cv (getS rt s).sinkCh).acc = true := hacc
+    have hnf : srcFin (getS rt s).src.pc = false := by rw [hs]; rfl
+    -- a sink that ended normally means the source had left its loop, or a failed start — whose abort refused writes
+    have hdr : (getS rt s).sto.drained = false := by
+      cases hd : (getS rt s).sto.drained with
+      | false => rfl
+      | true =>
+        rcases d.drained_fin hd with e | e
+        · rw [hnf] at e; cases e
+        · have := d.abort_refuses (.inr e) (pastAccFalse_of_stop hc) hv hnd
+          rw [hacc'] at this; cases this
+    have key := fun hx => d.err_refuses hx (.inl hnd)
+    refine ⟨?_, ?_, ?_⟩
+    · intro e; have := key (.inr ⟨.inl e, hdr⟩); rw [hacc'] at this; cases this
+    · intro e; have := key (.inr ⟨.inr e, hdr⟩); rw [hacc'] at this; cases this
+    · cases hl : snkErrLate (getS rt s).snk.pc with
+      | false => rfl
+      | true => have := key (.inl hl); rw [hacc'] at this; cases this
 
 /-- non-vacuity: a scenario with an abort is an initial state the theorems start from -/
 example : MReach (initRT 400 [some { F := 104, n := 1000 }, none] [.start, .sleep 7, .abort, .start, .stop]) := .init _ _ _
